@@ -129,6 +129,11 @@ class Environment:
                 self.coredata: coredata.CoreData = coredata.load(self.get_build_dir(), suggest_reconfigure=False)
                 self.first_invocation = False
             except FileNotFoundError:
+                # A cmd_line.txt without coredata.dat is what a failed or
+                # interrupted --wipe leaves behind: the machine files recorded
+                # there must be loaded now, like the options recorded there
+                # are applied later on.
+                cmdline.read_cmd_line_file(self.build_dir, cmd_options)
                 self.create_new_coredata(cmd_options)
             except coredata.MesonVersionMismatchException as e:
                 # This is routine, but tell the user the update happened
